@@ -80,7 +80,20 @@ impl<'tcx> Cx<'tcx> {
             ty::TyKind::Array(inner, n) => {
                 let n = n.try_to_target_usize(self.tcx).ok_or_else(|| "array length not evaluable".to_string())? as u128;
                 if *inner != elem {
-                    return Err(format!("base array {} is not an array of the element type", ty_str(t)));
+                    // an array of child nodes: n copies of the child, back to back (the array stride is the child's size)
+                    let cx = LayoutCx::new(self.tcx, self.env);
+                    let child = lay.field(&cx, 0);
+                    if n == 0 {
+                        return Ok(0);
+                    }
+                    let c = self.check_node(child, elem, se, ae)?;
+                    if child.size.bytes() as u128 != c * se as u128 {
+                        return Err(format!("child {} has size {} for {} elements", ty_str(child.ty), child.size.bytes(), c));
+                    }
+                    if lay.size.bytes() as u128 != n * c * se as u128 {
+                        return Err(format!("array node {} has size {}", ty_str(t), lay.size.bytes()));
+                    }
+                    return Ok(n * c);
                 }
                 if lay.size.bytes() as u128 != n * se as u128 {
                     return Err(format!("array node {} has size {}", ty_str(t), lay.size.bytes()));
